@@ -216,6 +216,7 @@ def check_predict(case, out):
     out.sample = {"nodes": spec["nodes"], "missing": missing, "rows": case["rows"]}
 
 
+THOROUGH_SCALE = 5  # thorough-tier example counts are n["thorough"] x this (one thorough run then takes roughly 5-10 minutes on 16 cores)
 SUBCHECKS = [
     Sub("bn_map", check_bn, strategy=lambda tier: query_case(), n={"quick": 200, "thorough": 3000},
         shards={"quick": 8, "thorough": 16}, doc="VariableElimination.map_query (6 elimination options) and BeliefPropagation.map_query on Bayesian networks with hard/virtual evidence"),
